@@ -224,6 +224,11 @@ func TensorFromProto(tp *TensorProto) (tensor.Tensor, error) {
 			return nil, ErrInvalidShape
 		}
 
+		// A product that does not fit an int cannot be the length of the decoded values.
+		if dim != 0 && nElements > math.MaxInt/dim {
+			return nil, ErrInvalidShape
+		}
+
 		nElements *= dim
 	}
 
